@@ -71,7 +71,7 @@ CHECKS = {
 NOT_YET = {}
 
 # properties with a fault-history part (harness/checks/faulthist.go)
-FAULT = {"C01", "C02", "C03", "C04", "C05", "C06", "C07", "C08", "C09", "C10", "C11", "C13", "C14", "C15", "C18"}
+FAULT = {"C01", "C02", "C03", "C04", "C05", "C06", "C07", "C08", "C09", "C10", "C11", "C12", "C13", "C14", "C15", "C18"}
 
 ALL = ["C%02d" % i for i in range(1, 20)]
 
